@@ -309,6 +309,7 @@ def static_tags(stmts) -> set:
     tags = set()
     btypes, _reads = static_types(stmts)
     decl = {s[2]: s[3] for s in stmts if s[0] == "decl"}
+    sig_types = {s[2]: s[3][1] for s in stmts if s[0] == "decl" and s[3][0] == "siglit"}
 
     def is_bundle(e) -> bool:
         return (e[0] == "var" and e[1] in btypes) or e[0] == "blit"
@@ -346,6 +347,13 @@ def static_tags(stmts) -> set:
                     other_use[r] = other_use.get(r, 0) + 1
             elif is_bundle(v):
                 gated.update(roots(v))                      # gating: value locked to green
+                ctypes = set()
+                for side in (c[2], c[3]) if c[0] == "bin" else (c,):
+                    if side[0] == "var" and side[1] in sig_types:
+                        ctypes.add(sig_types[side[1]])
+                vt = btypes.get(v[1], set()) if v[0] == "var" else set()
+                if ctypes & vt:
+                    tags.add("bundle-gate-cond-type")       # condition signal on a member's type
             walk(c, False)
             return
         if t == "bin" and e[1] in ("&&", "||"):
@@ -356,6 +364,8 @@ def static_tags(stmts) -> set:
         if t == "bin" and is_bundle(e[2]):
             for r in roots(e[2]):
                 other_use[r] = other_use.get(r, 0) + 1
+            if e[3][0] == "var":
+                gated.update(roots(e[3]))                   # scalar operand: locked to green too
         if t in ("any", "all", "bsel") and is_bundle(e[1]):
             for r in roots(e[1]):
                 other_use[r] = other_use.get(r, 0) + 1
